@@ -67,10 +67,37 @@ theorem publish_accepted_respects_limits (p : Publish) (s : Settings) (r : Optio
         simp only [hv, okIf_ok] at hsize
         exact ⟨rl, pl, sz, rfl, hv, by simpa using hsize⟩
 
+def accepted (r : VRes) : Bool := match r with | .ok _ => true | .error _ => false
+
+/-- **The CONNECT built from the options passes validation only if its will is a valid message**: the will topic and the
+    will's response topic are topic names (non-empty, no wildcard, at most 65535 bytes) and every string and binary field of
+    the CONNECT and of the will fits its two-byte length prefix. -/
+theorem connect_accepted_has_valid_will (c : Connect) (w : Publish) (hw : c.will = some w) :
+    validateOutbound (.connect c) = .ok () →
+      Spec.topicNameValid w.topic = true ∧
+      (∀ rt, w.responseTopic = some rt → Spec.topicNameValid rt = true) ∧
+      Spec.optOk w.payload = true ∧ Spec.optOk w.contentType = true ∧ Spec.optOk w.correlationData = true ∧
+      Spec.optOk w.responseTopic = true ∧ Spec.upsOk w.userProps = true ∧
+      Spec.optOk c.clientId = true ∧ Spec.optOk c.username = true ∧ Spec.optOk c.password = true ∧
+      Spec.upsOk c.userProps = true := by
+  unfold validateOutbound vConnectOutbound
+  simp only [hw, bind_ok_iff, okIf_ok, vOptLen_ok, vUserProps_ok, isValidTopic_iff]
+  intro ⟨h1, _, _, _, _, _, h7, h8, h9, h10, h11, h12, h13, _, h15, h16, h17⟩
+  refine ⟨h16, ?_, h15, h10, h12, h11, h13, h1, h7, h8, h9⟩
+  intro rt hrt
+  rw [hrt] at h17
+  simpa only [okIf_ok] using h17
+
+/-- an invalid will topic (empty, or with a wildcard) fails the CONNECT locally -/
+example :
+    (!accepted (validateOutbound (.connect { will := some { topic := [97, 47, 35] } })) &&
+     !accepted (validateOutbound (.connect { will := some { topic := [] } })) &&
+     !accepted (validateOutbound (.connect { will := some { topic := [97], responseTopic := some [114, 47, 43] } })) &&
+     accepted (validateOutbound (.connect { will := some { topic := [97, 47, 98], responseTopic := some [114] } }))) = true := by
+  decide
+
 /-- Non-vacuity: a concrete PUBLISH accepted by both validators exactly up to the size limit. -/
 def demo : Publish := { topic := [97, 47, 98], qos := 1, packetId := 7, payload := some [1, 2, 3] }
-
-def accepted (r : VRes) : Bool := match r with | .ok _ => true | .error _ => false
 
 example :
     (accepted (validateOutbound (.publish { demo with packetId := 0 })) &&
